@@ -150,8 +150,46 @@ class Exporter:
                 return _construct_context(fn, args, kwargs)
         raise Unsupported(f'dynamic context expression ({type(e).__name__})')
 
+    def dynamic_ctx(self, e) -> str:
+        """a context constructor whose numeric arguments are computed by the program: exported as a call to a
+        reserved callee name that encodes the class and the static options (see `ctxCtor` in Core.lean)"""
+        import inspect
+        from fpy2.number.context import mp_float, mps_float, mp_fixed, fixed, ieee754
+        if not (isinstance(e, A.Call) and isinstance(e.fn, type) and issubclass(e.fn, fp.Context)):
+            raise Unsupported('dynamic context expression')
+        params = list(inspect.signature(e.fn.__init__).parameters)[1:]
+        bound = dict(zip(params, e.args))
+        for k, v in e.kwargs: bound[k] = v
+        def static(name, default):
+            return self.static_py(bound[name]) if name in bound else default
+        def done(name, used):
+            extra = set(bound) - set(used)
+            if extra: raise Unsupported(f'dynamic context with extra arguments {sorted(extra)}')
+            return name
+        X = self.expr
+        if e.fn is mp_float.MPFloatContext:
+            rm = RM_NAME[static('rm', fp.RM.RNE)]
+            return f"(call {done('@mp/' + rm, ['pmax', 'rm'])} {X(bound['pmax'])})"
+        if e.fn is mps_float.MPSFloatContext:
+            rm = RM_NAME[static('rm', fp.RM.RNE)]
+            return f"(call {done('@mps/' + rm, ['pmax', 'emin', 'rm'])} {X(bound['pmax'])} {X(bound['emin'])})"
+        if e.fn is ieee754.IEEEContext:
+            rm = RM_NAME[static('rm', fp.RM.RNE)]; ov = OV_NAME[static('overflow', fp.OV.OVERFLOW)]
+            return f"(call {done('@ieee/' + rm + '/' + ov, ['es', 'nbits', 'rm', 'overflow'])} {X(bound['es'])} {X(bound['nbits'])})"
+        if e.fn is mp_fixed.MPFixedContext:
+            rm = RM_NAME[static('rm', fp.RM.RNE)]
+            return f"(call {done('@mpfix/' + rm, ['nmin', 'rm'])} {X(bound['nmin'])})"
+        if e.fn is fixed.FixedContext:
+            rm = RM_NAME[static('rm', fp.RM.RNE)]; ov = OV_NAME[static('overflow', fp.OV.WRAP)]
+            sg = b01(bool(static('signed', None)))
+            return f"(call {done('@fixed/' + rm + '/' + ov + '/' + sg, ['signed', 'scale', 'nbits', 'rm', 'overflow'])} {X(bound['scale'])} {X(bound['nbits'])})"
+        raise Unsupported(f'dynamic context {e.fn.__name__}')
+
     def static_ctx(self, e) -> str:
-        c = self.static_py(e)
+        try:
+            c = self.static_py(e)
+        except Unsupported:
+            return self.dynamic_ctx(e)
         if not isinstance(c, fp.Context): raise Unsupported('context expression is not a context')
         return '(ctx ' + ctx_tok(desc_of_ctx(c)) + ')'
 
